@@ -167,6 +167,9 @@ pub struct PoolCfg {
     /// the run
     #[serde(default)]
     pub keep_finished: bool,
+    /// the service below the pool sends through the dereferenced connection
+    #[serde(default)]
+    pub deref_send: bool,
 }
 
 #[derive(Clone, Debug, Serialize, Deserialize)]
@@ -224,6 +227,10 @@ struct ReqSlot {
     /// the service was not ready (poll_ready) when the request was issued: the handle and the
     /// request wait here, as they would inside tower's Oneshot
     unready: Option<(Svc, http::Request<SimBody>)>,
+    /// idle clocks restarted at this request's issue (connection, idle_since, last activity, last
+    /// touch step before): a request that then dials its own connection has taken none of them
+    /// out of the pool - they never moved, and their clocks go back
+    clock_resets: Vec<(usize, Option<u64>, u64, usize)>,
 }
 
 #[derive(Clone)]
@@ -421,6 +428,7 @@ fn gen_cfg(profile: &str, r: &mut Rng) -> PoolCfg {
             "C03" | "C15" | "C17" | "C19" => r.chance(1, 4),
             _ => false,
         },
+        deref_send: matches!(profile, "C02" | "C05" | "C15") && r.chance(1, 3),
         keep_finished: match profile {
             "C15" | "C03" => r.chance(1, 3),
             "C14" | "C04" | "C19" => r.chance(1, 4),
@@ -1153,6 +1161,7 @@ impl<'a> Run<'a> {
             }
             (snap, inflight, mnd)
         };
+        let mut clock_resets: Vec<(usize, Option<u64>, u64, usize)> = vec![];
         {
             // Whatever this request takes out of the pool now is no longer "sitting idle", even if
             // the request is never polled: the idle clock of every candidate restarts here (which
@@ -1161,6 +1170,7 @@ impl<'a> Run<'a> {
             let step = w.step;
             for (c, _) in &snapshot {
                 let conn = &mut w.conns[*c];
+                clock_resets.push((*c, conn.idle_since, conn.last_activity_ms, conn.last_touch_step));
                 conn.last_touch_step = step;
                 conn.last_activity_ms = now;
                 if conn.idle_since.is_some() {
@@ -1223,6 +1233,7 @@ impl<'a> Run<'a> {
             dialed: false,
             stage_at_timeout: None,
             unready: None,
+            clock_resets,
         };
         let panicked = called.is_err();
         match called {
@@ -1553,6 +1564,21 @@ impl<'a> Run<'a> {
             }
             self.reqs[ri].dialed = true;
             self.out.count("probe.dial_started");
+            {
+                // this request holds no pooled connection (it dials): whatever was idle when it was
+                // issued stayed where it was
+                let resets = std::mem::take(&mut self.reqs[ri].clock_resets);
+                let issue = self.reqs[ri].issue_step;
+                let mut w = self.w.lock();
+                for (c, idle_since, last_activity, last_touch) in resets {
+                    let conn = &mut w.conns[c];
+                    if conn.last_touch_step == issue && conn.idle_since.is_some() && idle_since.is_some() {
+                        conn.idle_since = idle_since;
+                        conn.last_activity_ms = last_activity;
+                        conn.last_touch_step = last_touch;
+                    }
+                }
+            }
             if let Some((rule, sig, why)) = self.reqs[ri].must_not_dial.clone() {
                 self.viol(
                     "C04",
@@ -2271,6 +2297,7 @@ impl PoolSim {
                 ww.idle_timeout_ms = case.cfg.idle_timeout_ms;
                 ww.open_while_busy = case.cfg.open_while_busy;
                 ww.lazy_send = case.cfg.lazy_send;
+                ww.deref_send = case.cfg.deref_send;
                 ww.trace = std::env::var("VERIF_TRACE").is_ok();
                 ww.t0 = Some(tokio::time::Instant::now());
                 for i in &case.cfg.alpn_h2 {
